@@ -34,6 +34,10 @@ Record tfra := mkTfra { tf_track : N; tf_offsets : list N }.
    composition time offset of the very first sample *)
 Record traf := mkTraf { t_track : N; t_base : N; t_truns : list (list N); t_cto0 : Z }.
 
+(* one trak of a moov, as far as UpdateSidx looks at it: tkhd.TrackID, hdlr handler type
+   (0 = vide, 1 = soun, 2 = anything else), mdhd.Timescale, and whether mvex holds a trex for it *)
+Record trak := mkTrak { k_id : N; k_handler : N; k_timescale : N; k_trex : bool }.
+
 Record topbox := mkBox {
   b_kind : kind;
   b_tag : N;
@@ -44,7 +48,12 @@ Record topbox := mkBox {
   b_stts_empty : bool;        (* moov: len(Trak.Mdia.Minf.Stbl.Stts.SampleCount) == 0 *)
   b_tfras : list tfra;        (* mfra: its tfra children *)
   b_mfro : bool;              (* mfra: last 16 bytes are an mfro whose ParentSize is the mfra size *)
-  b_trafs : list traf         (* moof *)
+  b_trafs : list traf;        (* moof *)
+  b_traks : list trak;        (* moov *)
+  b_version : N;              (* sidx: version, reference_ID, timescale, earliest_presentation_time *)
+  b_refid : N;
+  b_timescale : N;
+  b_ept : N
 }.
 
 (* a decoded SidxBox: the box and the AnchorPoint computed by DecodeSidx from the start position *)
